@@ -354,8 +354,10 @@ def evalConcat (ins : List (Option Shape × Option Shape)) (axis : Option Int) :
       | some ss => .sym ss.flatten
 
 /-- `identity(node)`: `input.shape = _merge_shapes(input.shape, output.shape)`; a raised merge is
-logged and ignored (input shape unchanged). -/
-def evalIdentity (inShape outShape : Option Shape) : Option Shape :=
+logged and ignored (input shape unchanged).  Since commit 71af564 nothing is merged onto a formal graph input
+(its declared shape is part of the model's interface).  Result: the input's shape annotation afterwards. -/
+def evalIdentity (inputIsGraphInput : Bool) (inShape outShape : Option Shape) : Option Shape :=
+  if inputIsGraphInput then inShape else
   match mergeShapes inShape outShape with
   | .ok s => s
   | .error _ => inShape
